@@ -233,3 +233,114 @@ def compare(found, registered, key, kind, id_prefix, label_extra, label_missing,
     out.append({'id': id_prefix + ':registered-present', 'kind': kind, 'ok': None if missing else True,
                 'label': label_missing, 'detail': 'missing: %r' % (missing,)})
     return out
+
+
+def _walk_no_nested(node):
+    """descendants of node without entering nested defs / lambdas / classes"""
+    for ch in ast.iter_child_nodes(node):
+        if isinstance(ch, (ast.FunctionDef, ast.AsyncFunctionDef, ast.Lambda, ast.ClassDef)):
+            continue
+        yield ch
+        yield from _walk_no_nested(ch)
+
+
+def _flat_targets(t):
+    if isinstance(t, (ast.Tuple, ast.List)):
+        for e in t.elts:
+            yield from _flat_targets(e)
+    else:
+        yield t
+
+
+def temporary_global_switches(repo, namespaces=('settings',)):
+    """[(file, qualname, attr, lineno, ok, why)]: every function of jedi/ that assigns an attribute of a
+    process-global namespace (jedi.settings) must restore it before every normal or raising exit that the function
+    itself writes down: syntactic frame rule
+      - the saved value is taken in the same statement as (or before) the switch,
+      - a restoring assignment `ns.attr = <saved>` exists at the top level of the function body or in a `finally`,
+      - no return / raise / yield lies between the switch and that restore unless the statement directly before it
+        in its block is a restoring assignment."""
+    out = []
+    for rel, path in py_files(repo):
+        if rel.replace(os.sep, '/') in ('jedi/settings.py',):
+            continue
+        try:
+            tree = parse(path)
+        except SyntaxError:
+            continue
+        enc = _enclosing(tree)
+        for fn in [n for n in ast.walk(tree) if isinstance(n, (ast.FunctionDef, ast.AsyncFunctionDef))]:
+            writes = []     # (stmt, attr)
+            for n in _walk_no_nested(fn):
+                if isinstance(n, (ast.Assign, ast.AugAssign, ast.AnnAssign)):
+                    tg = n.targets if isinstance(n, ast.Assign) else [n.target]
+                    for t in tg:
+                        for e in _flat_targets(t):
+                            if isinstance(e, ast.Attribute) and isinstance(e.value, ast.Name) and e.value.id in namespaces:
+                                writes.append((n, e.attr))
+                elif isinstance(n, ast.Call) and isinstance(n.func, ast.Name) and n.func.id == 'setattr' and n.args \
+                        and isinstance(n.args[0], ast.Name) and n.args[0].id in namespaces:
+                    writes.append((n, '<setattr>'))
+            if not writes:
+                continue
+            qual = (enc.get(id(fn), '<module>') + '.' + fn.name).replace('<module>.', '')
+            for attr in sorted({a for _, a in writes}):
+                ws = sorted([w for w, a in writes if a == attr], key=lambda w: w.lineno)
+                switch = ws[0]
+                ok, why = True, 'restored on every written exit'
+
+                def is_restore(stmt):
+                    if not isinstance(stmt, ast.Assign) or stmt is switch:
+                        return False
+                    return any(isinstance(e, ast.Attribute) and isinstance(e.value, ast.Name) and e.value.id in namespaces
+                               and e.attr == attr for t in stmt.targets for e in _flat_targets(t)) \
+                        and isinstance(stmt.value, ast.Name)
+                restores = [w for w in ws[1:] if is_restore(w)]
+                # the saved value must be read no later than the switch statement
+                saved_names = {w.value.id for w in restores}
+                saved_ok = False
+                for n in _walk_no_nested(fn):
+                    if isinstance(n, ast.Assign) and n.lineno <= switch.lineno:
+                        names = {e.id for t in n.targets for e in _flat_targets(t) if isinstance(e, ast.Name)}
+                        reads = any(isinstance(x, ast.Attribute) and isinstance(x.value, ast.Name) and x.value.id in namespaces
+                                    and x.attr == attr for x in ast.walk(n.value))
+                        if names & saved_names and reads:
+                            saved_ok = True
+                top = [s for s in fn.body if s in restores]
+                in_finally = []
+                for n in _walk_no_nested(fn):
+                    if isinstance(n, ast.Try):
+                        in_finally += [s for s in n.finalbody if s in restores]
+                if attr == '<setattr>':
+                    ok, why = False, 'setattr on a process-global namespace'
+                elif not restores or not saved_ok:
+                    ok, why = False, 'no restoring assignment of the saved value'
+                elif in_finally:
+                    ok, why = True, 'restored in a finally block'
+                elif not top:
+                    ok, why = False, 'the restoring assignment is not on the straight-line path of the function body'
+                else:
+                    last = max(top, key=lambda s: s.lineno)
+                    # exits between switch and final restore
+                    blocks = []
+                    for n in [fn] + list(_walk_no_nested(fn)):
+                        for field in ('body', 'orelse', 'finalbody'):
+                            b = getattr(n, field, None)
+                            if isinstance(b, list) and b and isinstance(b[0], ast.stmt):
+                                blocks.append(b)
+                        if isinstance(n, ast.Try):
+                            for h in n.handlers:
+                                blocks.append(h.body)
+                    for b in blocks:
+                        for i, s in enumerate(b):
+                            if switch.lineno < s.lineno < last.lineno:
+                                exits = isinstance(s, (ast.Return, ast.Raise)) or \
+                                    (isinstance(s, ast.Expr) and isinstance(s.value, (ast.Yield, ast.YieldFrom)))
+                                if exits and not (i > 0 and is_restore(b[i - 1])):
+                                    ok, why = False, 'line %d leaves the function while %s.%s is still switched' \
+                                        % (s.lineno, namespaces[0], attr)
+                    # statements after the final restore must not write the attribute again
+                    if any(w.lineno > last.lineno for w in ws):
+                        ok, why = False, 'written again after the restore'
+                out.append((rel.replace(os.sep, '/'), qual, attr, switch.lineno, ok, why))
+    return out
